@@ -43,6 +43,7 @@ struct Result
   unsigned tsan_reports = 0;
   unsigned locks_held_at_end = 0; // mutexes still owned when all fibers had finished
   std::uint64_t alloc_faults_fired = 0;
+  bool table_overflow = false; // more locks held at once than the scheduler can record (no verdict)
   bool deadlock = false;
   bool step_bound = false;
   std::string detail;
